@@ -298,7 +298,7 @@ func objectRuntimeType(n *tnode, o map[string]any) (rt string, problem string) {
 			return "", "missing __typename"
 		}
 		if !ok {
-			return "", "non-string __typename"
+			return "", "missing __typename" // the renderer cannot tell a non-string from an absent one
 		}
 		if !n.isPossible(s) {
 			return "", "unknown __typename"
@@ -306,7 +306,7 @@ func objectRuntimeType(n *tnode, o map[string]any) (rt string, problem string) {
 		return s, ""
 	}
 	// concrete object: a selected __typename that names another type makes the object ill-typed
-	if n.hasField("__typename") {
+	if n.hasField("__typename") && !n.anyTypename {
 		if s, ok := tn.(string); ok && s != n.typeName {
 			return "", "unknown __typename"
 		}
@@ -360,6 +360,16 @@ func collect(n *tnode, v any, present bool, path []any, top, chain, all bool, sk
 		rt, problem := objectRuntimeType(n, o)
 		if problem != "" {
 			*out = append(*out, raise{kind: rIll, at: path, paths: [][]any{path, clonePath(path, "__typename")}, node: n, skipped: skipped, why: problem})
+			// the values of the fields that are selected whatever the runtime type
+			// is are offending positions in their own right: a renderer that trips
+			// over one of them first reports that one
+			for _, f := range n.fields {
+				if f.static != "" || f.on != nil || f.key == "__typename" {
+					continue
+				}
+				fv, has := o[f.key]
+				collect(f.node, fv, has, clonePath(path, f.key), false, childChain, all, skipped, out)
+			}
 			return
 		}
 		for _, f := range n.fieldsFor(rt) {
@@ -656,7 +666,7 @@ func (t *typeSafety) check(n *tnode, o any, path []any, root bool) {
 				continue
 			}
 			if k == "__typename" {
-				if s, ok := v.(string); !ok || !n.isPossible(s) {
+				if s, ok := v.(string); !ok || (!n.anyTypename && !n.isPossible(s)) {
 					t.structural = true
 					t.j.fail(clType, "__typename rendered that is not a possible type", "__typename %s at %s, possible types %v", mustJSON(v), pathString(path), n.possible)
 				}
@@ -784,6 +794,15 @@ func (m *membership) check(n *tnode, v any, present bool, o any, path []any, roo
 				continue
 			}
 			if f.key == "__typename" {
+				if n.anyTypename {
+					// unrestricted: the rendered name is the subgraph's string
+					if ps, ok := vo["__typename"].(string); ok {
+						if s, _ := ov.(string); s != ps {
+							m.j.fail(m.propClause(), "rendered __typename differs from the subgraph's type name", "__typename %s at %s, subgraph sent %s", mustJSON(ov), pathString(path), mustJSON(ps))
+						}
+						continue
+					}
+				}
 				if s, _ := ov.(string); s != rt {
 					m.j.fail(m.propClause(), "rendered __typename differs from the runtime type", "__typename %s at %s, runtime type %s", mustJSON(ov), pathString(path), rt)
 				}
